@@ -55,6 +55,10 @@ def gen_seq(rng, allow_bad):
             mops.append("N:%d" % k)
             lines.append("new %d %d" % (k, rng.randint(0, 9)))
             hs.append({"kind": k, "owned": True, "released": False})
+        elif r < 0.33:
+            # a wrapper converting arguments through temporary buffers (no handle involved: no model operation)
+            ntrim = rng.choice([0, 0, 1, 3, 7, 19, 20, 24])
+            lines.append("tmp %d %d %d" % (rng.randint(1, 5), ntrim, ntrim + rng.choice([0, 0, 1, 5, 21])))
         elif r < 0.4:
             a = rng.randint(0, 4)
             mops.append("B:%d" % a)
@@ -121,6 +125,8 @@ def asan_class(err):
         return "bad-free"
     if "SEGV" in err:
         return "null"
+    if err == "exit 6":
+        return "temp-leak"           # the driver's own check: a wrapper left a temporary allocated
     if err == "exit 5":
         return "not-released"        # the driver's own check: after a release the handle is not cleared, or nothing was given back
     if err == "exit -6":
@@ -185,7 +191,7 @@ def run(ctx):
         pos = 5
         line_of = {}
         for li, l in enumerate(lines):
-            k = 2 if l.startswith("copyfree") else 1
+            k = 2 if l.startswith("copyfree") else 0 if l.startswith("tmp") else 1
             for j in range(k):
                 line_of[pos + j] = li
             pos += k
